@@ -32,12 +32,17 @@ def rebaseDelta (a : α) (sel : List (Iv α)) : α :=
 
 def shiftIv (d : α) (iv : Iv α) : Iv α := ⟨iv.s - d, iv.e - d, iv.l⟩
 
+/-- the rebased entries: shifted by `d`, those that no longer have positive length left out -/
+def rebaseIvs (d : α) (sel : List (Iv α)) : List (Iv α) :=
+  (sel.map (shiftIv d)).filter fun iv => decide (iv.s < iv.e)
+
 /-- `IntervalTier.crop(cropStart, cropEnd, mode, rebaseToZero)` -/
 def ITier.crop (t : ITier α) (a b : α) (m : CropMode) (rebase : Bool) : Except Err (ITier α) :=
   if b ≤ a then .error .ArgumentError else
   let sel := getIvs a b m t.es
   if rebase then
-    mkITier t.name (sel.map (shiftIv (rebaseDelta a sel))) (some Tm.zero) (some (b - a))
+    -- a rebased piece that rounds to zero length is dropped (repair in /repo; never the case in exact arithmetic)
+    mkITier t.name (rebaseIvs (rebaseDelta a sel) sel) (some Tm.zero) (some (b - a))
   else
     mkITier t.name sel (some a) (some b)
 
